@@ -283,3 +283,20 @@ Proof.
   intros Hc Hp. rewrite g_color_to_rgb_eq, g_color_to_xterm_eq, g_color_to_ansi_eq.
   exact (model_is_spec col p Hc Hp).
 Qed.
+
+(* ---- impl Default for Palette, impl From<[RgbColor; 16]> for Palette ------------------ *)
+
+Lemma g_palette_default_eq : g_palette_default = palette_default.
+Proof. reflexivity. Qed.
+
+Lemma g_palette_from_eq (raw : list rgb) : g_palette_from raw = palette_from raw.
+Proof. reflexivity. Qed.
+
+(* the default palette is in the domain of C10 (16 entries, channels below 256), and a palette made from an
+   array reads back that array *)
+Lemma translated_palette_default_ok : palette_ok g_palette_default.
+Proof. exact (proj1 shipped_palettes_ok). Qed.
+
+Lemma translated_palette_from_reads (raw : list rgb) (a : N) :
+  g_palette_get (g_palette_from raw) a = palette_get raw a.
+Proof. rewrite g_palette_from_eq. apply g_palette_get_eq. Qed.
